@@ -1413,6 +1413,9 @@ func genE2E(p core.Params) *e2eScript {
 	for i := 0; i < nown; i++ {
 		o := &scOwner{idx: i, name: fmt.Sprintf("m%d", i), devMTU: sc.devMTU, useAvail: p["avail"] == "1", linger: 1}
 		o.acts = []oAct{{name: "active", data: []byte{0xf5}}}
+		if class == "activeonly" { // the round that activates the module carries nothing else: what the device module says on its first yield belongs to this module
+			o.acts = append(o.acts, oAct{end: true})
+		}
 		sc.owners = append(sc.owners, o)
 		present := true
 		switch {
@@ -1523,9 +1526,12 @@ func genE2E(p core.Params) *e2eScript {
 			}
 			o.acts = append(o.acts, oAct{end: true})
 		}
-		if feature("yield") || class == "yieldsend" {
+		if feature("yield") || class == "yieldsend" || class == "activeonly" {
 			o.linger = 2
 			y := 1 + rng.Intn(2)
+			if class == "activeonly" {
+				y = 1
+			}
 			d.onYield[y] = append(d.onYield[y], mkSend(fmt.Sprintf("y%d%d", i, y), true))
 		}
 	}
@@ -2505,6 +2511,16 @@ func runC16E2E(c *core.Ctx) {
 			}
 		}
 	}
+	// (a2) activation-only rounds: each owner module's first round carries nothing but its activation, and the device
+	// module speaks first, on its yield
+	for _, nown := range []int{1, 2, 3} {
+		for _, mt := range [][2]int{{1300, 1300}, {64, 256}, {4096, 300}} {
+			if c.Quick() && nown == 3 && mt[0] != 1300 {
+				continue
+			}
+			do(base(mt[0], mt[1], nown, "activeonly"), "e2e-activation-only-round")
+		}
+	}
 	// (b) random MTU pairs over the whole range, small owner MTUs with the custom devmod module that ends the message after
 	// every descriptor
 	n := 500
@@ -2581,7 +2597,6 @@ func svcFirst(s string) string {
 	f, _, _ := strings.Cut(s, " ")
 	return f
 }
-
 
 // minServiceInfoMTU: FDO fixes 256 bytes as the smallest service-info size a peer may announce; below it the library's
 // behaviour is outside what C16/C17 quantify over ("from the minimum up to 65535"). Cases below it are still run (they
